@@ -812,7 +812,7 @@ theorem case_print (code : Code) (items : List PrintItem) (p : Pos) (sfx : Strin
   have h0 : code[σ.pc]? = some (CInstr.printSetPrinter, p) := hc.append_left.append_left.head
   have h1 : code[σ.pc + 1]? = some (CInstr.loadA (.int 0), p) := hc.append_left.append_left.tail.head
   have h2 : code[σ.pc + 1 + 1]? = some (CInstr.printSetFormat, p) := hc.append_left.append_left.tail.tail.head
-  let σ1 : Vm := advance σ
+  let σ1 : Vm := advance { σ with skipNewline := false }
   let σ2 : Vm := advance (setA σ1 (.int 0))
   let σ3 : Vm := advance σ2
   have s1 : CoreVm.step code σ = .next σ1 := by simp only [CoreVm.step, h0]; rfl
